@@ -406,11 +406,11 @@ func explain(c *Ctx, i int) string {
 	defer os.RemoveAll(tmp)
 	file := filepath.Join(tmp, "why.smt2")
 	os.WriteFile(file, []byte(q), 0o644)
-	out, _ := exec.Command("z3-new", "-T:60", file).CombinedOutput()
+	out, _ := exec.Command("z3-new", "-T:20", file).CombinedOutput()
 	text := string(out)
 	if !strings.HasPrefix(text, "sat") && !strings.HasPrefix(text, "unsat") {
 		// second opinion (z3 4.8 finds models for array-heavy queries z3 5 gives up on)
-		if out2, _ := exec.Command("z3", "-T:60", file).CombinedOutput(); strings.HasPrefix(string(out2), "sat") {
+		if out2, _ := exec.Command("z3", "-T:20", file).CombinedOutput(); strings.HasPrefix(string(out2), "sat") {
 			text = string(out2)
 		}
 	}
